@@ -33,6 +33,7 @@ type pwCase struct {
 			As   string `json:"as"`
 		} `json:"program"`
 		Lead []int `json:"lead"`
+		Runs []int `json:"runs"`
 	} `json:"clean"`
 }
 
@@ -44,6 +45,7 @@ var pwSpell = map[string][]string{
 	"ws":       {"  ", "\t", " \t "},
 	"code":     {`print "L%d\n";`, `my $v%d = %d; print "L", $v%d, "\n";`, `print 'L%d', "\n"; # trailing comment`},
 	"icomment": {"  # indented comment %d", "\t#tabbed %d"},
+	"endmark":  {"__END__", "__DATA__"},
 }
 
 func pwLine(class string, i int, rng *rand.Rand) string {
@@ -77,8 +79,10 @@ func pwExpected(c pwCase, rng *rand.Rand) (src, program, lead string, outLines [
 			pl = append(pl, "")
 		} else {
 			pl = append(pl, t)
-			if c.Script[p.Line-1] == "code" {
-				outLines = append(outLines, fmt.Sprintf("L%d", p.Line))
+			for _, ri := range c.Clean.Runs {
+				if ri == p.Line {
+					outLines = append(outLines, fmt.Sprintf("L%d", p.Line))
+				}
 			}
 		}
 	}
@@ -223,7 +227,13 @@ func pwGenerate(rng *rand.Rand, targetLen int) pwProg {
 	n := 2 + rng.Intn(8)
 	usedStdin := false
 	for i := 0; i < n; i++ {
-		switch rng.Intn(11) {
+		switch rng.Intn(14) {
+		case 11: // an end marker that is data, not the end of the program
+			fmt.Fprintf(&sb, "print <<'EOT%d';\n#!/usr/bin/perl\nprint 1;\n%s\ndata line\nEOT%d\n", i, []string{"__END__", "__DATA__"}[rng.Intn(2)], i)
+		case 12:
+			fmt.Fprintf(&sb, "print \"multi\n%s\nline %d\\n\";\n", []string{"__END__", "__DATA__"}[rng.Intn(2)], i)
+		case 13:
+			fmt.Fprintf(&sb, "\n=pod\n\n%s\n\nprint 'never %d';\n\n=cut\n\nprint \"after pod %d\\n\";\n", []string{"__END__", "some 'pod' text \\ {"}[rng.Intn(2)], i, i)
 		case 0:
 			b := make([]byte, 1+rng.Intn(40))
 			rng.Read(b)
@@ -510,7 +520,7 @@ func perlwrapCampaign(r *ev.Run) {
 	r.Set("behavioural_cases", len(jobs))
 	r.Set("shell_runs", 2*len(jobs))
 	r.Set("length_residues_mod_135", len(lens))
-	r.Rule("TLC enumerates every sequence of line classes (#!, bare #, comment, blank, whitespace-only, code, indented comment) up to the bound with the expected (lead comments, program text) from PerlWrap.tla and checks the quoting pipeline on the whole uu alphabet; each sequence is concretised, run through the real FromPerl, the carried text reversed and decoded by perl and compared; generated programs (all byte values in literals, quotes, backslashes, braces, here-docs, __END__, exit codes, die, arguments, stdin; lengths covering the residues mod 45 and 3; up to ~64 KiB) are executed as functions under dash and bash and directly by perl, comparing stdout and exit status; non-trivial = distinct non-blank scripts")
+	r.Rule("TLC enumerates every sequence of line classes (#!, bare #, comment, blank, whitespace-only, code, indented comment, __END__/__DATA__ marker) up to the bound with the expected (lead comments, program text) from PerlWrap.tla and checks the quoting pipeline on the whole uu alphabet; each sequence is concretised, run through the real FromPerl, the carried text reversed and decoded by perl and compared; generated programs (all byte values in literals, quotes, backslashes, braces, here-docs, __END__ / __DATA__ both as the end of the program and as data inside here-docs, multi-line strings and POD, exit codes, die, arguments, stdin; lengths covering the residues mod 45 and 3; up to ~64 KiB) are executed as functions under dash and bash and directly by perl, comparing stdout and exit status; non-trivial = distinct non-blank scripts")
 	r.Assume("perl itself is the oracle for behavioural equivalence; the grammar is bounded")
 }
 
